@@ -205,3 +205,9 @@ for _p in ("C01", "C02", "C03", "C05"):
     CLAIMED[_p]["note"] += _KF
 CLAIMED["C04"]["text"] = CLAIMED["C04"]["text"].replace("The decode contracts are not discharged;",
     "Also proved: _compute_gain_sets / _compute_lca_sets (the sets from which the unordered decoder builds every content: gained at the LCA of the carriers, required below it). The decode contracts are not discharged;")
+
+_EXH = (" reconcile_exhaustive is PROVED from the real AST relative to an ASSUMED enumerator: for every sequence generate_all yields and every retention policy the returned set contains only "
+        "enumerated outputs of minimum evaluator cost, under ALL every one of them, under ANY exactly one if any, under NONE none (loop invariant over the Entry.update contract; outputs are opaque "
+        "values with a cost, injected into the tag sort). WHICH reconciliations generate_all enumerates stays bounded.")
+CLAIMED["C01"]["text"] = CLAIMED["C01"]["text"].replace("the exhaustive solver and the enumerator generate_all are compared", "the enumerator generate_all (and the solvers end to end) are compared") + _EXH
+CLAIMED["C05"]["text"] += _EXH
